@@ -153,6 +153,32 @@ func genC12(t *rapid.T, excluded *int) C12Case {
 		}
 		burst("stagger.d")
 	}
+	// Persisted positions come in two forms: the header of a data file and the
+	// separate offset file that a flush writes when it has positions to record
+	// but no rows (a follower sees many entries of other partitions). A third of
+	// the cases append the sequence that makes both exist and then restarts.
+	if rapid.IntRange(0, 2).Draw(t, "offsetfile") == 0 {
+		f := rapid.IntRange(0, nf-1).Draw(t, "offsetfile.f")
+		burst := func(label string, lo, hi int) {
+			k := rapid.IntRange(lo, hi).Draw(t, label+".n")
+			for j := 0; j < k; j++ {
+				p := h.GenPoint(t, cfg, &c.Data.Schema, cfg.MaxPeriods, fmt.Sprintf("%s.p%d", label, j))
+				c.Ops = append(c.Ops, C12Op{K: "ins", P: &p, Leader: rapid.IntRange(0, c.Conf.Leaders-1).Draw(t, fmt.Sprintf("%s.l%d", label, j))})
+			}
+		}
+		if down[f] {
+			c.Ops = append(c.Ops, C12Op{K: "start", F: f})
+			down[f] = false
+		}
+		// flush everything there is, then entries that mostly concern other
+		// partitions / rejected points, then a flush with little or nothing to write
+		c.Ops = append(c.Ops, C12Op{K: "barrier"}, C12Op{K: "flush", F: f})
+		burst("offsetfile.a", 1, 3)
+		c.Ops = append(c.Ops, C12Op{K: "barrier"}, C12Op{K: "flush", F: f})
+		burst("offsetfile.b", 3, 8)
+		c.Ops = append(c.Ops, C12Op{K: "barrier"}, C12Op{K: "flush", F: f}, C12Op{K: "stop", F: f}, C12Op{K: "start", F: f})
+		burst("offsetfile.c", 1, 4)
+	}
 	nq := rapid.IntRange(1, 2).Draw(t, "nq")
 	for i := 0; i < nq; i++ {
 		tbl := c.Data.Schema.Tables[rapid.IntRange(0, len(c.Data.Schema.Tables)-1).Draw(t, fmt.Sprintf("qt%d", i))].Name
